@@ -3,6 +3,7 @@ import json
 import time
 
 import common
+import whitebox
 import gen_insp
 import images
 import insp_gen as G
@@ -247,7 +248,7 @@ def vsize_via_wrapper(fmt, data, sizes, allowed=None, how='read'):
         w = F.InspectWrapper(iter(insp_impl.cut(data, sizes)), allowed_formats=allowed)
         for _ in w:
             pass
-    insp = [i for i in w._inspectors if i.NAME == fmt][0]
+    insp = [i for i in whitebox.w_inspectors(w) if i.NAME == fmt][0]
     try:
         f = w.format
         fs = str(f) if f is not None else 'None'
